@@ -44,6 +44,9 @@ func openLevelDB(path string, options *opt.Options) (*leveldb.DB, error) {
 }
 
 func openOneTime(path string, options *opt.Options) (*leveldb.DB, error) {
+	if db, handled, err := verifOpen(path, options); handled {
+		return db, err
+	}
 	db, errOpen := leveldb.OpenFile(path, options)
 	if errOpen == nil {
 		return db, nil
